@@ -180,4 +180,147 @@ def findMember (ms : List Member) (value : JVal) (reprValue : List Char) : Optio
 def defaultMember (ms : List Member) (value : JVal) (reprValue : List Char) : Option (List Char) :=
   if value.falsy then none else findMember ms value reprValue
 
+
+/-! ### `Parser.__set_default_enum_member` over a whole run: `Member` objects and their aliases
+
+`Enum.find_member` returns `self.get_member(field)`, i.e. `Member(self, field)`: a NEW object on every
+call. `__set_default_enum_member` stores it as the field's default and then WRITES the import alias of the
+field's data type onto it (`enum_member.alias = data_type.alias`). The text is produced much later
+(`Member.__repr__` inside the template, after every module has been processed). Object identity matters,
+so the `Member` objects live in a heap (a list, address = index): `getMember` allocates, `setAliasAt`
+mutates in place, `MemberObj.repr` reads the final state. -/
+
+/-- a `Member` object: `self.enum` (its `name` is all that is read), `self.field.name`, `self.alias` -/
+structure MemberObj where
+  enumName : List Char
+  fieldName : List Char
+  alias : Option (List Char) := none
+  deriving DecidableEq, Repr
+
+abbrev Heap := List MemberObj
+
+/-- `self.alias or self.enum.name` -/
+def aliasOr (alias : Option (List Char)) (enumName : List Char) : List Char :=
+  match alias with
+  | some (c :: cs) => c :: cs
+  | _ => enumName
+
+/-- `Member.__repr__`: `f"{self.alias or self.enum.name}.{self.field.name}"` -/
+def MemberObj.repr (m : MemberObj) : List Char := aliasOr m.alias m.enumName ++ '.' :: m.fieldName
+
+/-- `Enum.get_member(field)` = `Member(self, field)`: allocates; returns the new heap and the address -/
+def getMember (h : Heap) (enumName fieldName : List Char) : Heap × Nat :=
+  (h ++ [{ enumName := enumName, fieldName := fieldName }], h.length)
+
+/-- `member.alias = a` on the object at address `i` -/
+def setAliasAt : Heap → Nat → List Char → Heap
+  | [], _, _ => []
+  | m :: ms, 0, a => { m with alias := some a } :: ms
+  | m :: ms, i + 1, a => m :: setAliasAt ms i a
+
+/-- `for enum_member_ in enum_member: enum_member_.alias = data_type.alias` -/
+def setAliases (h : Heap) (addrs : List Nat) (a : List Char) : Heap :=
+  addrs.foldl (fun acc i => setAliasAt acc i a) h
+
+/-- the default of a model field: a scalar (with its `repr`) or a list of scalars -/
+inductive DVal where
+  | scalar (v : JVal) (reprValue : List Char)
+  | list (vs : List (JVal × List Char))
+  deriving Repr
+
+/-- one model field whose data type refers to an enum: the enum (name and members), `data_type.alias`
+as `__change_from_import` left it for the module of the field (`none` in the module that defines the
+enum), the default -/
+structure Step where
+  enumName : List Char
+  members : List Member
+  dtAlias : Option (List Char)
+  default : DVal
+
+/-- what the field's default is afterwards: untouched, one `Member`, a list of `Member`s (addresses) -/
+inductive Out where
+  | unchanged
+  | one (addr : Nat)
+  | many (addrs : List Nat)
+  deriving DecidableEq, Repr
+
+/-- `if data_type.alias:` -/
+def truthyAlias : Option (List Char) → Option (List Char)
+  | some (c :: cs) => some (c :: cs)
+  | _ => none
+
+/-- `[e for e in (source.find_member(d) for d in default) if e]` -/
+def findAll (h : Heap) (enumName : List Char) (ms : List Member) : List (JVal × List Char) → Heap × List Nat
+  | [] => (h, [])
+  | (v, r) :: rest =>
+    match findMember ms v r with
+    | none => findAll h enumName ms rest
+    | some n =>
+      let (h1, a) := getMember h enumName n
+      let (h2, as) := findAll h1 enumName ms rest
+      (h2, a :: as)
+
+/-- the body of `__set_default_enum_member` for one field -/
+def applyStep (h : Heap) (s : Step) : Heap × Out :=
+  match s.default with
+  | .scalar v r =>
+    if v.falsy then (h, .unchanged)                        -- `if not model_field.default: continue`
+    else match findMember s.members v r with
+      | none => (h, .unchanged)                            -- `if not enum_member: continue`
+      | some n =>
+        let (h1, a) := getMember h s.enumName n
+        match truthyAlias s.dtAlias with
+        | some al => (setAliasAt h1 a al, .one a)
+        | none => (h1, .one a)
+  | .list vs =>
+    match findAll h s.enumName s.members vs with
+    | (h1, []) => (h1, .unchanged)                         -- empty list of members (or empty default): falsy
+    | (h1, a :: as) =>
+      match truthyAlias s.dtAlias with
+      | some al => (setAliases h1 (a :: as) al, .many (a :: as))
+      | none => (h1, .many (a :: as))
+
+/-- every field of every model of every module, in processing order -/
+def runSteps (h : Heap) : List Step → Heap × List Out
+  | [] => (h, [])
+  | s :: ss =>
+    let (h1, o) := applyStep h s
+    let (h2, os) := runSteps h1 ss
+    (h2, o :: os)
+
+/-- the text of a field's default -/
+inductive Text where
+  | unchanged
+  | one (t : List Char)
+  | many (ts : List (List Char))
+  deriving DecidableEq, Repr
+
+def reprAt (h : Heap) (a : Nat) : List Char := (h[a]?.map MemberObj.repr).getD []
+
+/-- what the template prints for the field once every module has been processed (final heap) -/
+def renderOut (h : Heap) : Out → Text
+  | .unchanged => .unchanged
+  | .one a => .one (reprAt h a)
+  | .many as => .many (as.map (reprAt h))
+
+/-- the names of the members the field's default resolves to (no heap) -/
+def foundNames (s : Step) : List (List Char) :=
+  match s.default with
+  | .scalar v r => if v.falsy then [] else (findMember s.members v r).toList
+  | .list vs => vs.filterMap (fun p => findMember s.members p.1 p.2)
+
+/-- text of the member `n` as seen from the field's own module -/
+def memberText (s : Step) (n : List Char) : List Char := aliasOr s.dtAlias s.enumName ++ '.' :: n
+
+/-- SPECIFICATION: the text of the field's default as a function of the field alone — its own data type's
+alias (i.e. its own module), the enum, the default -/
+def stepText (s : Step) : Text :=
+  match s.default, foundNames s with
+  | _, [] => .unchanged
+  | .scalar _ _, n :: _ => .one (memberText s n)
+  | .list _, ns => .many (ns.map (memberText s))
+
+/-- the class name a module binds for a definition name: the part after the last dot -/
+def shortName (n : List Char) : List Char := (n.reverse.takeWhile (· != '.')).reverse
+
 end Dcg.Model.Enum
